@@ -174,18 +174,21 @@ class C20(SchedProp):
             # suicide: after `remove(b)` + the suicide commit: is b gone from the pool table?
             _case('c20-probe-sui', _SUI, [_L] + _job('1/c') + _job('1/a', ('started',)) + [_L, _L, {
                 'op': 'msg', 'task': '1/a', 'msg': 'failed', 'sn': 1, 'sev': 'CRITICAL'}, _kill(2)]),
+            # start-up: killed before the first main loop: is the pool in the pool table?
+            _case('c20-probe-start', _AB, [{'op': 'crash'}]),
         ]
-        raws = run_retry(probes, 3)
+        raws = run_retry(probes, 4)
         for raw in raws:
             if 'error' in raw:
                 raise Infra(f'C20 probe run failed: {raw["error"][-400:]}')
-            if not raw['obs'][-1].get('crashed'):
+            if not raw['obs'][-1].get('crashed') and raw['id'] != 'c20-probe-start':
                 raise Infra(f'C20 probe {raw["id"]}: the kill point was not reached')
         db = [raw['obs'][-1]['db'] or [] for raw in raws]
         at_remove = any(r[:2] == [1, 'b'] for r in db[0])
         at_abs = any(r[:2] == [1, 'a'] and r[3] == 'succeeded' for r in db[1])
         at_sui = at_remove or not any(r[:2] == [1, 'b'] for r in db[2])
-        self.flags = {'remove': at_remove, 'abs': at_abs, 'suicide': at_sui}
+        at_start = bool(raws[3]['obs'][-1]['pool'])
+        self.flags = {'remove': at_remove, 'abs': at_abs, 'suicide': at_sui, 'start': at_start}
         lb = {True: 'true', False: 'false'}
         return {'CrashFlags.lean': (
             '/- GENERATED by harness/props/c20.py translate() from the live source. Do not edit. -/\n'
@@ -196,6 +199,8 @@ class C20(SchedProp):
             f'def poolAtAbs : Bool := {lb[at_abs]}\n'
             '/-- ... and the commit that follows event-driven suicides (unobservable, hence equal, when `remove` does) -/\n'
             f'def poolAtSuicide : Bool := {lb[at_sui]}\n'
+            '/-- ... and the commit at the end of start-up (`Scheduler.configure`) -/\n'
+            f'def poolAtStart : Bool := {lb[at_start]}\n'
             'end CylcModel.CrashFlags\n')}
 
     def corpus(self):
